@@ -431,7 +431,8 @@ class Interp:
                 mod = frontend.load(rel)
                 try:
                     return self.module_lookup(mod, attr)
-                except PyExc:
+                except (PyExc, Unsupported):
+                    # a module global whose initialiser is outside the modelled subset: opaque -- any USE of it is Unsupported
                     return Opaque(dotted)
         if dotted.split('.')[0] in self.models.KNOWN_EXTERNAL:
             return ModRef(dotted)
